@@ -160,7 +160,13 @@ func verifC07Cases() []verifC07Case {
 	return out
 }
 
-func TestVerifC07(t *testing.T) {
+func TestVerifC07(t *testing.T) { verifC07(t, true) }
+
+// TestVerifC07Rule: the four-way comparison against LLVM's rule only (shared with C03); the parser-specific
+// cases (struct index written as a constant expression) belong to C07 alone.
+func TestVerifC07Rule(t *testing.T) { verifC07(t, false) }
+
+func verifC07(t *testing.T, parserCases bool) {
 	cases, fails := 0, 0
 	kinds := map[string]int{}
 	fail := func(kind, f string, a ...interface{}) {
@@ -264,6 +270,27 @@ func TestVerifC07(t *testing.T) {
 					fail("const-constructor", "`%s`: constant.NewGetElementPtr type %s, LLVM rule gives %s", gepText, got, c.want)
 				}
 			}()
+		}()
+	}
+	// a struct field selected by a constant EXPRESSION (LLVM folds it; llvm-as accepts the text)
+	for _, tc := range []struct{ src, want string }{
+		{"", ""},
+		{"define i64* @f({i32, i64}* %q) {\n\t%a = getelementptr {i32, i64}, {i32, i64}* %q, i32 0, i32 add (i32 0, i32 1)\n\tret i64* %a\n}\n", "i64*"},
+		{"@g = global {i32, i64} zeroinitializer\n@x = global i64* getelementptr ({i32, i64}, {i32, i64}* @g, i32 0, i32 add (i32 0, i32 1))\n", "i64*"},
+	} {
+		if !parserCases || tc.src == "" {
+			continue
+		}
+		cases++
+		func() {
+			defer func() {
+				if e := recover(); e != nil {
+					fail("constexpr-struct-index", "a struct index written as a constant expression panics the parser: %v", strings.Split(fmt.Sprint(e), "\n")[0])
+				}
+			}()
+			if _, err := ParseString("ce.ll", tc.src); err != nil {
+				fail("constexpr-struct-index", "a struct index written as a constant expression is rejected: %v", err)
+			}
 		}()
 	}
 	_ = types.I1
